@@ -1,5 +1,5 @@
 /*UNIT
-{"props": ["C05","C09","C08"], "kind": "K2", "tier": "quick", "timeout": 300,
+{"props": ["C05","C09","C08","C10"], "kind": "K2", "tier": "quick", "timeout": 300,
  "functions": ["ZSTD_writeFrameHeader","ZSTD_getFrameHeader_advanced","ZSTD_frameHeaderSize_internal"],
  "floor": 100, "replay": true,
  "what": "frame-header writer/reader inverse lemma over all parameters, all 64-bit pledged sizes, all 32-bit dictIDs, both formats; truthful fields; reserved bit zero; no proper prefix of a written header is complete"}
